@@ -541,6 +541,180 @@ func runLike(c *lib.Ctx, cs caseT) {
 	}
 }
 
+// ---------- equal-weight characters of different UTF-8 width ----------
+type widthPair struct{ narrow, wide rune }
+
+var widthPairs = map[string][]widthPair{}
+
+// pairsFor scans the collation's Sorter for code points that it gives the same weight although their UTF-8 encodings
+// have different lengths (accent variants, Kelvin sign / long s, fullwidth forms ...)
+func pairsFor(coll sql.Collation) []widthPair {
+	if ps, ok := widthPairs[coll.Name]; ok {
+		return ps
+	}
+	var ps []widthPair
+	first := map[int32]rune{} // weight -> narrowest rune seen so far
+	scan := func(lo, hi rune) {
+		for x := lo; x <= hi; x++ {
+			if x == '%' || x == '_' || x == '\\' || x == '\'' || (x >= 0xD800 && x <= 0xDFFF) {
+				continue
+			}
+			w := coll.Sorter(x)
+			if y, ok := first[w]; ok {
+				if utf8.RuneLen(y) != utf8.RuneLen(x) && len(ps) < 60 {
+					ps = append(ps, widthPair{y, x})
+				}
+			} else {
+				first[w] = x
+			}
+		}
+	}
+	scan(0x30, 0x7A)
+	scan(0xC0, 0x24F)
+	scan(0x1E00, 0x1EFF)
+	scan(0x2100, 0x214F)
+	scan(0xFB00, 0xFB06)
+	scan(0xFF10, 0xFF5A)
+	widthPairs[coll.Name] = ps
+	return ps
+}
+
+// genWidthCase: subject and pattern spell the same word with equal-weight characters of different byte widths (either
+// direction), the pattern optionally wrapped in / interleaved with wildcards
+func genWidthCase(r *lib.RNG, coll sql.Collation) (subj, pat string, ok bool) {
+	ps := pairsFor(coll)
+	if len(ps) == 0 {
+		return "", "", false
+	}
+	n := r.Range(1, 4)
+	var a, b []rune
+	for i := 0; i < n; i++ {
+		if r.Chance(1, 3) {
+			x := rune(r.Range('a', 'z'))
+			a, b = append(a, x), append(b, x)
+			continue
+		}
+		p := ps[r.Intn(len(ps))]
+		if r.Bool() {
+			a, b = append(a, p.narrow), append(b, p.wide)
+		} else {
+			a, b = append(a, p.wide), append(b, p.narrow)
+		}
+	}
+	subj, pat = string(a), string(b)
+	switch r.Intn(8) {
+	case 0:
+		pat = "%" + pat
+	case 1:
+		pat = pat + "%"
+	case 2:
+		pat = "%" + pat + "%"
+	case 3:
+		pat = "_" + pat
+		subj = "x" + subj
+	case 4:
+		subj = "zz" + subj
+		pat = "%" + pat
+	case 5:
+		rs := []rune(pat)
+		rs[r.Intn(len(rs))] = '_'
+		pat = string(rs)
+	}
+	return subj, pat, true
+}
+
+var likeTables = map[string]bool{}
+
+// runLikeSQL: the same law through SQL with a COLUMN-valued pattern (a literal wildcard-free pattern is rewritten to =
+// by the analyzer): s LIKE p must be what the declarative LIKE over the collation's weights says
+func runLikeSQL(c *lib.Ctx, cs caseT) {
+	coll, ok := collByName[cs.Collation]
+	if !ok || coll.ID == sql.Collation_binary || !strings.HasPrefix(coll.Name, "utf8mb4_") {
+		return
+	}
+	ab, _ := hex.DecodeString(cs.A)
+	bb, _ := hex.DecodeString(cs.B)
+	subj, pat := string(ab), string(bb)
+	if !sqlSafeLike(subj) || !sqlSafeLike(pat) {
+		return
+	}
+	id := c.CaseNoModel(cs, "likesql|"+cs.Collation+"|"+cs.A+"|"+cs.B)
+	c.Count("like_sql_column_pattern")
+	c.PredChecked()
+	if sess == nil {
+		sess = eng.New("db").Session()
+	}
+	tbl := "lk_" + coll.Name
+	if !likeTables[tbl] {
+		if r := sess.Query("CREATE TABLE " + tbl + " (s VARCHAR(80) COLLATE " + coll.Name + ", p VARCHAR(80) COLLATE " + coll.Name + ")"); r.Err != nil || r.Panic != "" {
+			c.Count("like_sql_skipped")
+			return
+		}
+		likeTables[tbl] = true
+	}
+	sess.Query("DELETE FROM " + tbl)
+	if r := sess.Query("INSERT INTO " + tbl + " VALUES (" + sqlLit(subj) + ", " + sqlLit(pat) + ")"); r.Err != nil || r.Panic != "" {
+		c.Count("like_sql_skipped")
+		return
+	}
+	q := "SELECT s LIKE p, s = p FROM " + tbl
+	res := sess.Query(q)
+	if res.Panic != "" {
+		c.PredFail(id, "sql/panic", q+" panics: "+res.Panic, cs)
+		return
+	}
+	if res.Err != nil || len(res.Rows) != 1 {
+		c.Count("like_sql_skipped")
+		return
+	}
+	b01 := func(v interface{}) string {
+		switch fmt.Sprint(v) {
+		case "true", "1":
+			return "1"
+		}
+		return "0"
+	}
+	gotLike, gotEq := b01(res.Rows[0][0]), b01(res.Rows[0][1])
+	var nodes []likeNode
+	wild := false
+	for _, x := range pat {
+		switch x {
+		case '_':
+			nodes, wild = append(nodes, likeNode{1, 0}), true
+		case '%':
+			nodes, wild = append(nodes, likeNode{2, 0}), true
+		default:
+			nodes = append(nodes, likeNode{0, coll.Sorter(x)})
+		}
+	}
+	var ws []int32
+	for _, x := range subj {
+		ws = append(ws, coll.Sorter(x))
+	}
+	want := "0"
+	if refLike(nodes, ws) {
+		want = "1"
+	}
+	what := fmt.Sprintf("%s: s=%q p=%q: s LIKE p = %s, s = p is %s, declarative LIKE over the weights %s", coll.Name, subj, pat, gotLike, gotEq, want)
+	if !wild && gotLike != gotEq {
+		c.PredFail(id, "sql/like-without-wildcards-differs-from-equality", what, cs)
+	} else if gotLike != want {
+		c.PredFail(id, "sql/like-column-pattern-differs-from-definition", what, cs)
+	}
+}
+
+func sqlSafeLike(s string) bool {
+	if !utf8.ValidString(s) {
+		return false
+	}
+	for _, x := range s {
+		if x < 0x20 || x == '\\' || x == 0x7f {
+			return false
+		}
+	}
+	return true
+}
+
 // runLikeSweep: every pattern over {a,b,%,_} and every string over {a,b} up to length 5 (binary collation): the real
 // matcher against the declarative definition, both directions
 func runLikeSweep(c *lib.Ctx, cs caseT) {
@@ -635,6 +809,8 @@ func runCase(c *lib.Ctx, cs caseT) {
 		runLikeSweep(c, cs)
 	case "like":
 		runLike(c, cs)
+	case "likesql":
+		runLikeSQL(c, cs)
 	case "sweep":
 		runSweep(c, cs)
 	case "sql":
@@ -678,6 +854,20 @@ func main() {
 			{Kind: "like", Collation: "utf8mb4_0900_bin", A: hx("Hello"), B: hx("h_L%o")},
 			{Kind: "like", Collation: "utf8mb4_general_ci", A: hx("a%b_c"), B: hx("A\\%%\\_C")},
 			{Kind: "like", Collation: "utf8mb4_0900_ai_ci", A: hx("aXbXc"), B: hx("%b%c%")},
+			// equal under the collation, shorter encoding than the pattern's literals (and the other way round)
+			{Kind: "like", Collation: "utf8mb4_0900_ai_ci", A: hx("e"), B: hx("é")},
+			{Kind: "like", Collation: "utf8mb4_0900_ai_ci", A: hx("resume"), B: hx("résumé")},
+			{Kind: "like", Collation: "utf8mb4_0900_ai_ci", A: hx("résumé"), B: hx("resume")},
+			{Kind: "like", Collation: "utf8mb4_0900_ai_ci", A: hx("k"), B: hx("\u212a")},
+			{Kind: "like", Collation: "utf8mb4_general_ci", A: hx("s"), B: hx("ſ")},
+			{Kind: "like", Collation: "utf8mb4_0900_ai_ci", A: hx("cafe"), B: hx("%café")},
+			{Kind: "like", Collation: "utf8mb4_0900_ai_ci", A: hx("xe"), B: hx("_é")},
+			{Kind: "likesql", Collation: "utf8mb4_0900_ai_ci", A: hx("e"), B: hx("é")},
+			{Kind: "likesql", Collation: "utf8mb4_0900_ai_ci", A: hx("resume"), B: hx("résumé")},
+			{Kind: "likesql", Collation: "utf8mb4_0900_ai_ci", A: hx("k"), B: hx("\u212a")},
+			{Kind: "likesql", Collation: "utf8mb4_general_ci", A: hx("s"), B: hx("ſ")},
+			{Kind: "likesql", Collation: "utf8mb4_0900_ai_ci", A: hx("cafe"), B: hx("%café")},
+			{Kind: "likesql", Collation: "utf8mb4_0900_ai_ci", A: hx("café"), B: hx("%cafe%")},
 			{Kind: "cmp", Collation: "latin7_general_ci", A: hx("t"), B: hx("T"), C: hx("u")}, // known: weights 182 / 183
 		}
 		for _, cs := range corpus {
@@ -697,6 +887,16 @@ func main() {
 			}
 			if r.Chance(1, 4) {
 				cc = genStr(r, malformed)
+			}
+			if coll.ID != sql.Collation_binary && r.Chance(1, 8) {
+				if ws, wp, ok := genWidthCase(r, coll); ok {
+					kind := "like"
+					if strings.HasPrefix(coll.Name, "utf8mb4_") && r.Chance(1, 3) {
+						kind = "likesql"
+					}
+					runCase(c, caseT{Kind: kind, Collation: coll.Name, A: hx(ws), B: hx(wp)})
+					continue
+				}
 			}
 			if r.Chance(1, 7) && utf8.ValidString(a) {
 				runCase(c, caseT{Kind: "like", Collation: coll.Name, A: hx(a), B: hx(genPattern(r, variant(r, a)))})
